@@ -61,7 +61,11 @@ pub fn apply_model(m: &mut RefStore, op: Op, val_tag: &str, key_len: usize) -> E
         }
         Op::Fsync => Expect::Res(Res::Ok),
         Op::Tick => {
-            m.tick();
+            m.tick(200);
+            Expect::Done
+        }
+        Op::TickShort => {
+            m.tick(45);
             Expect::Done
         }
         Op::DamageRst => {
@@ -203,6 +207,12 @@ pub fn compare_filters(m: &RefStore, obs: &Obs) -> Vec<Finding> {
                     format!("check_filter(k{k}) = NotContains for a stored key"),
                 ));
             }
+            if ko.merged_filter_maybe == Some(false) {
+                out.push(finding(
+                    "get_filter",
+                    format!("the merged filter returned by get_filter answers NotContains for the stored key k{k}"),
+                ));
+            }
         }
     }
     out
@@ -326,6 +336,7 @@ pub fn model_key_obs(m: &RefStore, k: KeyId, metas: &[MetaId]) -> KeyObs {
         with: metas.iter().map(|mm| (*mm, strip_ts(&m.read_with(k, *mm)))).collect(),
         check_filters: None,
         check_filter_maybe: true,
+        merged_filter_maybe: None,
     }
 }
 
